@@ -46,6 +46,7 @@ func (p *optionsParser) parseFrom(file ast.File) {
 	}
 
 	seen := make(map[string]int)
+	var tokenStream ast.Identifier
 	for _, opt := range file.Options() {
 		name := opt.Key().Text()
 		if line, ok := seen[name]; ok {
@@ -168,6 +169,13 @@ func (p *optionsParser) parseFrom(file ast.File) {
 		default:
 			p.Errorf(opt.Key(), "unknown option '%v'", name)
 		}
+		if name == "tokenStream" {
+			tokenStream = opt.Key()
+		}
+	}
+	if opts.TokenStream && !opts.EventBased {
+		// Note: the token stream reports tokens to a listener, which exists in event-based parsers only.
+		p.Errorf(tokenStream, "tokenStream requires eventBased = true")
 	}
 }
 
